@@ -1,7 +1,13 @@
 // hC28: histories of hand-built peer blocks, producer blocks, re-organisations and mempool offers
 // on fresh chain33 test nodes, with duplicates (same block, later block, after a re-organisation,
 // TxHeight transactions inside/outside their window), expired, under-paid, wrong-chain and
-// mis-signed transactions (C28).
+// mis-signed transactions, single and in groups of 2-4 (groups.go, scen_groups.go) (C28).
+//
+// The mempool is part of the case: before every delivery it is asked which of the table's Hash
+// ids it holds (XSnap: the model's pool must answer the same), after a delivery that
+// disconnected blocks it is asked again behind the EventDelBlock messages (XSync: which
+// transactions of the disconnected blocks it took back depends on message timing; the model
+// adopts the answer after checking that every id can be explained).
 //
 // A factory node executes every block on its parent state so that peer blocks carry the right
 // TxHash/StateHash; when the factory's producer path drops a transaction, the block is rebuilt
@@ -50,9 +56,21 @@ func newNode(low, high int64) *testnode.Chain33Mock {
 	m := testnode.NewWithConfig(cfg, nil)
 	quiet()
 	cl := m.GetClient()
-	stop := cl.NewMessage("consensus", types.EventMinerStop, nil)
-	if err := cl.Send(stop, true); err == nil {
-		_, _ = cl.WaitTimeout(stop, 5*time.Second)
+	// the block producer must be off before anything is offered: ask until an answer has arrived
+	// (a loaded machine can take seconds), then once more (the second answer must be "not started")
+	answers := 0
+	for try := 0; try < 40 && answers < 2; try++ {
+		stop := cl.NewMessage("consensus", types.EventMinerStop, nil)
+		if err := cl.Send(stop, true); err != nil {
+			time.Sleep(50 * time.Millisecond)
+			continue
+		}
+		if _, err := cl.WaitTimeout(stop, 15*time.Second); err == nil || err.Error() == types.ErrMinerNotStared.Error() {
+			answers++
+		}
+	}
+	if answers < 2 {
+		panic("block producer did not answer the stop request")
 	}
 	deadline := time.Now().Add(20 * time.Second)
 	for m.GetBlockChain().GetBlockHeight() < 0 {
@@ -96,6 +114,9 @@ type utx struct {
 	Tk   uint64
 	Tf   uint64
 	Sig  bool
+	Gc   int32
+	Hdr  uint64
+	Nx   uint64
 	Desc string
 }
 
@@ -140,7 +161,12 @@ type world struct {
 	byHash map[string]int
 	tip    int
 
-	used []int // table positions that were offered in some block so far
+	used []int // table positions that were offered in some block so far (group members too)
+
+	bits     uint32  // Difficulty of the blocks built next (a heavier side branch wins at equal or lower height)
+	groups   [][]int // groups made so far (table positions of the members, in group order)
+	lastSet  map[uint64]bool
+	selfSeen map[string]bool // hashes of the producer blocks handed over so far
 
 	ops       []string
 	script    []string
@@ -180,10 +206,22 @@ func (w *world) add(tx *types.Transaction, desc string) int {
 	if _, ok := w.tkID[ks]; !ok {
 		w.tkID[ks] = uint64(len(w.tkID) + 1)
 	}
-	u := &utx{Tx: tx, Th: w.thID[hs], Tk: w.tkID[ks], Tf: uint64(len(w.univ) + 1), Sig: tx.CheckSign(w.tipNode().B.Height + 1), Desc: desc}
+	u := &utx{Tx: tx, Th: w.thID[hs], Tk: w.tkID[ks], Tf: uint64(len(w.univ) + 1), Sig: tx.CheckSign(w.tipNode().B.Height + 1),
+		Gc: tx.GroupCount, Hdr: w.hashID(tx.Header), Nx: w.hashID(tx.Next), Desc: desc}
 	w.univ = append(w.univ, u)
 	w.full[fh] = len(w.univ) - 1
 	return len(w.univ) - 1
+}
+
+// hashID numbers a 32-byte value in the id space of Hash() (0 = nil)
+func (w *world) hashID(b []byte) uint64 {
+	if len(b) == 0 {
+		return 0
+	}
+	if _, ok := w.thID[string(b)]; !ok {
+		w.thID[string(b)] = uint64(len(w.thID) + 1)
+	}
+	return w.thID[string(b)]
 }
 
 type txSpec struct {
@@ -195,7 +233,8 @@ type txSpec struct {
 	pad     int // payload padding ("none" executor transaction of about this size) or 0 = coins transfer
 }
 
-func (w *world) newTx(s txSpec) int {
+// body: the unsigned transaction of a spec (Fee 0)
+func (w *world) body(s txSpec) (*types.Transaction, string) {
 	var tx *types.Transaction
 	tipB := w.tipNode().B
 	if s.pad > 0 {
@@ -224,9 +263,15 @@ func (w *world) newTx(s txSpec) int {
 		tx.Expire = s.d
 	}
 	desc += fmt.Sprintf("(%d)", s.d)
+	tx.Fee = 0
+	return tx, desc
+}
+
+func (w *world) newTx(s txSpec) int {
+	tx, desc := w.body(s)
+	tipB := w.tipNode().B
 	minfee := w.cfg.GetMinTxFeeRate()
 	// the fee is set for the signed size
-	tx.Fee = 0
 	tx.Sign(types.SECP256K1, w.keys[s.owner])
 	need := int64(types.Size(tx)/1000+1) * minfee
 	// the fee field itself changes the size by a few bytes: iterate once
@@ -369,6 +414,9 @@ func (w *world) build(par *bnode, dt int64, idx []int) *bnode {
 	b := util.CreateNewBlock(w.cfg, par.B, cloneTxs(w, idx))
 	b.BlockTime = par.B.BlockTime + dt
 	b.Difficulty = diffBits
+	if w.bits != 0 {
+		b.Difficulty = w.bits
+	}
 	want := append([]*types.Transaction{}, b.Txs...)
 	good := false
 	d, _, err := util.ExecBlock(w.f.GetClient(), par.B.StateHash, types.Clone(b).(*types.Block), false, true, false)
@@ -421,7 +469,24 @@ func errClass(err error) int {
 	return 9
 }
 
-func (w *world) poolSnapshot() []uint64 {
+func (w *world) poolSnapshot() []uint64 { return w.poolSnapshotPrio(true) }
+
+// snap: the mempool's answer just before a delivery, as an operation of the case
+func (w *world) snap() []uint64 {
+	pool := w.poolSnapshot()
+	w.ops = append(w.ops, "XSnap "+nList(pool))
+	w.setLast(pool)
+	return pool
+}
+
+func (w *world) setLast(pool []uint64) {
+	w.lastSet = map[uint64]bool{}
+	for _, id := range pool {
+		w.lastSet[id] = true
+	}
+}
+
+func (w *world) poolSnapshotPrio(high bool) []uint64 {
 	req := &types.ReqCheckTxsExist{}
 	var ids []uint64
 	seen := map[uint64]bool{}
@@ -437,7 +502,7 @@ func (w *world) poolSnapshot() []uint64 {
 	}
 	cl := w.r.GetClient()
 	msg := cl.NewMessage("mempool", types.EventCheckTxsExist, req)
-	if err := cl.Send(msg, true); err != nil {
+	if err := cl.Send(msg, high); err != nil {
 		panic(err)
 	}
 	rp, err := cl.WaitTimeout(msg, 10*time.Second)
@@ -489,6 +554,9 @@ func (w *world) rblk(n *bnode, idx []int) string {
 
 // settle: the mempool drops the transactions of connected blocks asynchronously
 func (w *world) settle(connected []*bnode, disc int) {
+	if disc > 0 {
+		return // the caller asks behind the EventDelBlock messages; re-pooled transactions may sit in the pool
+	}
 	want := map[uint64]bool{}
 	for _, n := range connected {
 		for _, k := range n.Idx {
@@ -514,14 +582,11 @@ func (w *world) settle(connected []*bnode, disc int) {
 		}
 		time.Sleep(time.Millisecond)
 	}
-	if disc > 0 {
-		time.Sleep(25 * time.Millisecond)
-	}
 }
 
 // deliver a registered peer block and derive the connect/disconnect operations from the tips
 func (w *world) deliver(n *bnode) int {
-	pool := w.poolSnapshot()
+	pool := w.snap()
 	old := w.tip
 	var err error
 	pan := ""
@@ -535,14 +600,19 @@ func (w *world) deliver(n *bnode) int {
 	}()
 	if pan != "" {
 		w.anomaly("ProcessBlock panicked: %s", pan)
-		w.ops = append(w.ops, fmt.Sprintf("XPeer %s %s %s", nList(pool), w.rblk(n, n.Idx), hlib.N(8)))
+		w.ops = append(w.ops, fmt.Sprintf("XPeer %s %s", w.rblk(n, n.Idx), hlib.N(8)))
 		return 8
 	}
 	now := w.tipID()
 	ec := errClass(err)
 	if now == unknownID {
-		w.anomaly("tip is an unknown block")
-		w.ops = append(w.ops, fmt.Sprintf("XPeer %s %s %s", nList(pool), w.rblk(n, n.Idx), hlib.N(7)))
+		hd := w.chain.GetStore().LastHeader()
+		desc := fmt.Sprintf("height %d time %d txs %d", hd.Height, hd.BlockTime, hd.TxCount)
+		if bd, e := w.chain.GetBlock(hd.Height); e == nil && bd != nil {
+			desc += fmt.Sprintf(" %v difficulty %x", w.idxOf(bd.Block.Txs), bd.Block.Difficulty)
+		}
+		w.anomaly("tip is an unknown block: %s", desc)
+		w.ops = append(w.ops, fmt.Sprintf("XPeer %s %s", w.rblk(n, n.Idx), hlib.N(7)))
 		return 7
 	}
 	// old tip -> common ancestor -> new tip
@@ -586,7 +656,7 @@ func (w *world) deliver(n *bnode) int {
 	}
 	for _, b := range conn {
 		guard(b)
-		w.ops = append(w.ops, fmt.Sprintf("XPeer %s %s %s", nList(pool), w.rblk(b, b.Idx), hlib.N(0)))
+		w.ops = append(w.ops, fmt.Sprintf("XPeer %s %s", w.rblk(b, b.Idx), hlib.N(0)))
 		for _, k := range b.Idx {
 			if k != unknownID && !w.univ[k].Sig {
 				w.sawKF = true
@@ -611,10 +681,17 @@ func (w *world) deliver(n *bnode) int {
 		fail.Good = false
 		guard(fail)
 		w.nontriv = true
-		w.ops = append(w.ops, fmt.Sprintf("XPeer %s %s %s", nList(pool), w.rblk(fail, fail.Idx), hlib.N(uint64(ec))))
+		w.ops = append(w.ops, fmt.Sprintf("XPeer %s %s", w.rblk(fail, fail.Idx), hlib.N(uint64(ec))))
 		w.note("  -> %v (block %d)", err, fail.ID)
 	}
 	w.settle(conn, disc)
+	if disc > 0 {
+		// behind the EventDelBlock messages (low priority): what the mempool holds now
+		back := w.poolSnapshotPrio(false)
+		w.ops = append(w.ops, "XSync "+nList(back))
+		w.setLast(back)
+		w.note("  pool after the re-organisation: %v", back)
+	}
 	return ec
 }
 
@@ -630,6 +707,13 @@ func (w *world) self(dt int64, idx []int) int {
 	b := util.CreateNewBlock(w.cfg, par.B, cloneTxs(w, idx))
 	b.BlockTime = par.B.BlockTime + dt
 	b.Difficulty = diffBits
+	if hs := string(b.Hash(w.cfg)); w.selfSeen[hs] {
+		// the very same block was handed over before (the node would answer ErrBlockExist): another block time
+		return w.self(dt+1, idx)
+	} else {
+		w.selfSeen[hs] = true
+	}
+	w.snap()
 	in := w.idxOf(b.Txs)
 	for _, k := range idx {
 		w.used = append(w.used, k)
@@ -690,7 +774,7 @@ func (w *world) self(dt int64, idx []int) int {
 func (w *world) pool(i int) bool {
 	rep, err := w.r.GetAPI().SendTx(types.CloneTx(w.univ[i].Tx))
 	acc := err == nil && rep != nil && rep.IsOk
-	w.ops = append(w.ops, fmt.Sprintf("XPool %s %s", hlib.N(uint64(i)), hlib.Bool(acc)))
+	w.ops = append(w.ops, fmt.Sprintf("XPool [%s] %s", hlib.N(uint64(i)), hlib.Bool(acc)))
 	w.note("pool offer %d (%s) -> %v", i, w.univ[i].Desc, acc)
 	return acc
 }
@@ -770,7 +854,7 @@ func (w *world) finish(o *hlib.Out, in caseIn) {
 	}
 	txs := make([]string, len(w.univ))
 	for i, u := range w.univ {
-		txs[i] = fmt.Sprintf("mkTx %d %d %d %s %d %d %d %s", u.Th, u.Tk, u.Tf, zlit(u.Tx.Expire), u.Tx.Fee, types.Size(u.Tx), u.Tx.ChainID, hlib.Bool(u.Sig))
+		txs[i] = fmt.Sprintf("mkTx %d %d %d %s %s %d %d %s %d %d %d", u.Th, u.Tk, u.Tf, zlit(u.Tx.Expire), zlit(u.Tx.Fee), types.Size(u.Tx), u.Tx.ChainID, hlib.Bool(u.Sig), u.Gc, u.Hdr, u.Nx)
 	}
 	gen := w.node(1).B
 	cfgT := fmt.Sprintf("(mkCfg %d %d %d %d %d %d %s)", w.low, w.high, w.cfg.GetMinTxFeeRate(), w.cfg.GetMaxTxFee(1), w.cfg.GetChainID(), types.MaxTxSize,
@@ -1159,7 +1243,7 @@ func runCase(o *hlib.Out, f *testnode.Chain33Mock, in caseIn) {
 	cfg := f.GetClient().GetConfig()
 	w := &world{f: f, r: r, chain: r.GetBlockChain(), cfg: cfg, rng: hlib.NewRng(in.Seed*1000003 + uint64(in.Idx)), low: in.Low, high: in.High,
 		keys: []crypto.PrivKey{f.GetGenesisKey(), key(11), key(23), key(37)},
-		full: map[string]int{}, thID: map[string]uint64{}, tkID: map[string]uint64{}, byHash: map[string]int{}, guardOK: true}
+		full: map[string]int{}, thID: map[string]uint64{}, tkID: map[string]uint64{}, byHash: map[string]int{}, selfSeen: map[string]bool{}, guardOK: true}
 	gen := r.GetBlock(0)
 	if !bytes.Equal(gen.Hash(cfg), f.GetBlock(0).Hash(cfg)) {
 		panic("receiver has a different genesis block")
@@ -1175,6 +1259,16 @@ func runCase(o *hlib.Out, f *testnode.Chain33Mock, in caseIn) {
 		scenarioReorg(w)
 	case in.Kind == "reorg-window":
 		scenarioReorgWindow(w)
+	case in.Kind == "group-forge":
+		scenarioGroupForge(w)
+	case in.Kind == "group-hdrempty":
+		scenarioGroupHdrEmpty(w)
+	case in.Kind == "group-window":
+		scenarioGroupWindow(w)
+	case in.Kind == "group-reorg":
+		scenarioGroupReorg(w)
+	case strings.HasPrefix(in.Kind, "group-linear"):
+		scenarioGroupLinear(w, w.rng.Range(5, 10), in.Kind == "group-linear-any")
 	case strings.HasPrefix(in.Kind, "linear"):
 		scenarioLinear(w, w.rng.Range(6, 12), in.Kind == "linear-any")
 	default:
@@ -1201,14 +1295,18 @@ func main() {
 		runCase(o, f, in)
 		return
 	}
-	n, budget := 120, 50*time.Second
+	n, budget := 160, 60*time.Second
 	if opts.Thorough() {
-		n, budget = 3000, 30*time.Minute
+		n, budget = 3200, 30*time.Minute
 	}
 	if v := os.Getenv("HC28_N"); v != "" {
 		fmt.Sscan(v, &n)
 	}
-	kinds := []string{"linear", "window", "reorg", "linear", "forgery", "reorg-window", "linear-any", "reorg", "window"}
+	kinds := []string{"linear", "group-linear", "window", "group-hdrempty", "reorg", "group-reorg", "forgery", "group-forge",
+		"reorg-window", "group-window", "linear-any", "group-linear-any", "group-linear", "reorg", "group-reorg", "group-hdrempty"}
+	if v := os.Getenv("HC28_KINDS"); v != "" {
+		kinds = strings.Split(v, ",")
+	}
 	windows := [][2]int64{{2, 3}, {1, 1}, {2, 3}, {1, 2}, {3, 2}}
 	for i := 0; i < n; i++ {
 		if time.Since(start) > budget {
